@@ -539,6 +539,17 @@ func wdPipes(seed int64, thorough bool, nrand int) []*wdPipe {
 			t.Exptime, t.Opaque = v, v
 			ps = append(ps, wdMakePipe(fmt.Sprintf("%sc-%d", pr, v), text, []wire.Command{c, g, t}))
 		}
+		// gets with many keys: in text one command line longer than any reader buffer (4 KiB default,
+		// 64 KiB line limit), in binary a long run of quiet frames
+		for _, shape := range [][2]int{{17, 250}, {40, 200}, {100, 60}, {250, 250}} {
+			c := wire.Command{Op: "get", Opaque: wdU32(rng)}
+			for i := 0; i < shape[0]; i++ {
+				c.Keys = append(c.Keys, wdKey(rng, text, shape[1]))
+				c.Quiet = append(c.Quiet, !text && i < shape[0]-1)
+			}
+			tail := wdCommand(rng, text, "set", 5, 70)
+			ps = append(ps, wdMakePipe(fmt.Sprintf("%sm-get-%dx%d", pr, shape[0], shape[1]), text, []wire.Command{c, tail, c}))
+		}
 		if !text {
 			// quiet batches of every length closed both ways, followed by a no-op of their own
 			for nq := 0; nq <= 3; nq++ {
